@@ -13,7 +13,7 @@ import (
 
 // Opts steer the generator.
 type Opts struct {
-	Profile string // http-loc validation errors security views grpc naming openapi mixed
+	Profile string // http-loc validation errors security views grpc naming openapi mixed stream
 	// Runtime restricts the envelope to what the runtime driver can drive (no unions, streaming, multipart, files).
 	Runtime  bool
 	Thorough bool
@@ -21,10 +21,18 @@ type Opts struct {
 	Files bool
 	// Avoid lists feature combinations that are open known findings of C01 (DESIGN §12); never set for C01 itself.
 	Avoid map[string]bool
+	// Streams allows HTTP streaming (websocket) methods in Runtime mode (gen/stream.go). Outside Runtime
+	// mode every profile emits them with a modest probability; the profile "stream" makes most methods stream.
+	Streams bool
+	// NoStreams switches streaming methods off outside Runtime mode (checks calibrated without them).
+	NoStreams bool
+	// StreamViews allows result types with views as streamed results in Runtime mode.
+	StreamViews bool
 }
 
 type g struct {
 	r          *vc.Rand
+	sr         *vc.Rand // stream of the "is this method streaming" decisions (derived: does not shift r)
 	o          Opts
 	s          *spec.Spec
 	names      map[string]bool // user type names used
@@ -71,7 +79,7 @@ func (x *g) pickName(used map[string]bool) string {
 
 // Generate draws one spec.
 func Generate(r *vc.Rand, id string, o Opts) *spec.Spec {
-	x := &g{r: r, o: o, names: map[string]bool{}}
+	x := &g{r: r, sr: r.Derive(0x57e4), o: o, names: map[string]bool{}}
 	s := &spec.Spec{ID: id}
 	x.s = s
 	s.API.Name = "api" + strings.ToLower(id)
